@@ -592,7 +592,7 @@ def run(ctx):
     ctx.assumptions += [
         "the code between a lock acquire and its release, and between two schedule points of one goroutine, is atomic "
         "(Go memory model); validated by executing the schedules on the real code through verifhook.Yield and by -race runs, not proved",
-        "the data-race clause of the property is checked with the race detector only (thorough tier); level: proof, partial",
+        "the data-race clause of the property is checked with the race detector only (stress runs, both tiers); level: proof, partial",
         "serializability is proved for workers under a fixed policy; sweeper, handlers and reload take part in the invariants "
         "(announce once per lifetime, visible only after validate, count, no panic) but not in that theorem",
         "liveness tester, covert resolution and the detector channel are injected (scripted tester, literal addresses, recorder)",
@@ -624,15 +624,20 @@ def run(ctx):
     for c in cases:
         c["policies"] = POLICIES
     js = [dict(c, regs=[reg_json(r) for r in c["regs"]]) for c in cases]
-    with ThreadPoolExecutor(max_workers=3) as ex:
-        f_sched = ex.submit(ctx.go_inpkg, ".", PKG, DRIVER, "^TestVerifC09$", js, False, 1200)
-        f_dist = ex.submit(run_distrib, ctx, split)
-        rc, out, res = f_sched.result()
-        f_dist.result()
+    race_off = os.environ.get("VERIF_C09_RACE") == "0"
+    ex = ThreadPoolExecutor(max_workers=3)
+    f_sched = ex.submit(ctx.go_inpkg, ".", PKG, DRIVER, "^TestVerifC09$", js, False, 1200)
+    f_dist = ex.submit(run_distrib, ctx, split)
+    # free-running stress under the race detector, overlapped with the rest of the check
+    f_race = None if race_off else ex.submit(run_stress, ctx, True)
+    rc, out, res = f_sched.result()
+    f_dist.result()
     tm["go_sched_and_distrib"] = round(time.time() - t0, 1)
     t0 = time.time()
     if res is None or len(res) != len(cases):
         ctx.broken("driver", "Go driver (sched) produced no results: %s" % out[-1200:])
+        if f_race is not None:
+            f_race.result()
         return
     terms = []
     for r in res:
@@ -666,7 +671,7 @@ def run(ctx):
                        "handler/activated", "distrib/idle", "distrib/busy", "distrib/overload"])
     tm["oracle_and_encode"] = round(time.time() - t0, 1)
     t0 = time.time()
-    mm = ctx.coq_mismatches("sched", HEADER, terms, "chkb", shard=max(60, len(terms) // 16 + 1), need_vo=["C09/Run.vo"])
+    mm = ctx.coq_mismatches("sched", HEADER, terms, "chkb", shard=min(500, max(60, len(terms) // 16 + 1)), need_vo=["C09/Run.vo"])
     if mm:
         ctx.cov["mismatches"] += len(mm)
         i = mm[0]
@@ -676,10 +681,10 @@ def run(ctx):
                    {"sched_cases": [cases[i]], "observed": res[i]})
     tm["coq_eval"] = round(time.time() - t0, 1)
     t0 = time.time()
-    # free-running stress; under the race detector in the thorough tier
     run_stress(ctx, race=False)
-    tm["stress"] = round(time.time() - t0, 1)
-    if ctx.tier == "thorough" or os.environ.get("VERIF_C09_RACE") == "1":
-        run_stress(ctx, race=True)
+    if f_race is not None:
+        f_race.result()
     else:
-        ctx.cov["race_detector"] = {"ran": False, "note": "the -race stress runs in the thorough tier"}
+        ctx.cov["race_detector"] = {"ran": False, "note": "disabled by VERIF_C09_RACE=0"}
+    ex.shutdown()
+    tm["stress"] = round(time.time() - t0, 1)
